@@ -1478,9 +1478,9 @@ def signature(case, viol) -> str:
 
 
 BUDGETS = {
-    "C11": dict(quick_runs=12000, thorough_budget=900,
+    "C11": dict(quick_runs=10000, thorough_budget=900,
                 technique="deterministic simulation: seeded derive/execute/fault histories over a stream forest, snapshot invariant after every step"),
-    "C12": dict(quick_runs=15000, thorough_budget=900,
+    "C12": dict(quick_runs=12000, thorough_budget=900,
                 technique="deterministic simulation: virtual-time asyncio loop with seeded schedules and executor faults, routing model over the recorded history, bounded liveness"),
     "C16": dict(quick_runs=8000, thorough_budget=900,
                 technique="deterministic simulation: seeded QMetaData/derive/execute histories against a dict-per-stream reference model and a twin chain without QMetaData"),
